@@ -368,8 +368,11 @@ def run(chk, repo, tier):
         if okfill:
             for val, sm in zip(r.items[1:], smp):
                 va = val.single_atom() if isinstance(val, Poly) else None
-                okfill = okfill and va is not None and is_app(va, 'setitem') and va[2][2] == sm.result and \
-                    va[2][0] == S('fill_value') * nf.app('ones', nf.attr(r.items[0], 'shape'))
+                starts = (S('fill_value') * nf.app('ones', nf.attr(r.items[0], 'shape')),
+                          S('fill_value') * nf.app('ones', Tup([nf.attr(r.items[0], 'size')])),
+                          S('fill_value') * nf.app('ones', nf.attr(r.items[0], 'size')),
+                          nf.app('full', nf.attr(r.items[0], 'shape'), S('fill_value')))
+                okfill = okfill and va is not None and is_app(va, 'setitem') and va[2][2] == sm.result and va[2][0] in starts
         det_fill = ''
         if not (isinstance(r, Tup) and len(r) == 3) or any(isinstance(x, Poly) and x.single_atom() is not None and
                                                             x.single_atom()[0] in ('loop', 'iter') for x in (r.items if isinstance(r, Tup) else ())):
